@@ -1,0 +1,48 @@
+//! Verification hooks (cargo feature `verif-hooks`, off by default).
+//!
+//! Nothing in this module is compiled unless the feature is enabled. The hooks let an
+//! external test harness (a) override the detected parallelism of
+//! [`prayer_times_dt_rng_block`](super::prayer_times_dt_rng_block), (b) perturb the
+//! schedule of its worker/collector threads at named points and (c) call the private
+//! hour -> clock time conversion directly.
+
+use std::sync::atomic::{AtomicUsize, Ordering};
+use std::sync::RwLock;
+
+use chrono::NaiveTime;
+
+use super::{params::Params, Prayer};
+
+static PARALLELISM: AtomicUsize = AtomicUsize::new(0);
+static SCHED_HOOK: RwLock<Option<fn(&'static str, usize)>> = RwLock::new(None);
+
+/// Overrides the parallelism detected by `prayer_times_dt_rng_block` (`None` restores detection).
+pub fn set_parallelism(value: Option<usize>) {
+    PARALLELISM.store(value.unwrap_or(0), Ordering::SeqCst);
+}
+
+/// Returns the overridden parallelism, or `detected` when no override is set.
+pub fn parallelism(detected: usize) -> usize {
+    match PARALLELISM.load(Ordering::SeqCst) {
+        0 => detected,
+        n => n,
+    }
+}
+
+/// Installs (or removes) a function called at every schedule point of the parallel range API.
+pub fn set_sched_hook(hook: Option<fn(&'static str, usize)>) {
+    *SCHED_HOOK.write().unwrap() = hook;
+}
+
+/// A schedule point: calls the installed hook, if any, with the point's name and an index.
+pub fn sched_point(name: &'static str, idx: usize) {
+    let hook = *SCHED_HOOK.read().unwrap();
+    if let Some(hook) = hook {
+        hook(name, idx);
+    }
+}
+
+/// Direct access to the private conversion of a fractional hour to a clock time.
+pub fn hour_to_time(params: &Params, prayer: Prayer, hour: f64) -> NaiveTime {
+    super::hours::hour_to_time(params, prayer, hour)
+}
